@@ -18,6 +18,10 @@ var c12sizes = []int{0, 1, 2, 5, 9, 10, 11, 12, 20, 40}
 func runC12(c *fw.Ctx) {
 	r := c.Rng
 	g := &wl.Gen{R: r}
+	if c.Idx == 0 {
+		c12huge(c)
+		return
+	}
 	shape := c.Idx % 4 // 0 empty, 1 single entry, 2 shared-prefix (short) root, 3 branch root
 	nreq := c12sizes[(c.Idx/4)%len(c12sizes)]
 	collapsed := (c.Idx/40)%2 == 1
@@ -70,7 +74,14 @@ func runC12(c *fw.Ctx) {
 		}
 		_ = b.Commit(true)
 		wr, ww := m.Ref()
-		src = wl.Reopen(wr, ww, st)
+		if r.Intn(3) == 0 && ww > 0 { // the source is a collapsed view of the committed trie (CopyRoot) instead of a bare hash node
+			vl := r.Intn(6)
+			src = wmpt.New(src.CopyRoot(vl), st)
+			lvl = 100 + vl
+			c.Count("imports_from_copyroot_view", 1)
+		} else {
+			src = wl.Reopen(wr, ww, st)
+		}
 	} else {
 		src.Root() // finalise hashes, as the package's own tests do before GetPath
 	}
@@ -176,11 +187,55 @@ func runC12(c *fw.Ctx) {
 	}
 }
 
+// c12huge: one export with far more than 2^17 nodes (all keys of a 66 000-entry trie requested): import, roots, one mirrored update
+func c12huge(c *fw.Ctx) {
+	r := c.Rng
+	src := wmpt.New(nil, nil)
+	m := wl.Model{}
+	var keys [][]byte
+	for i := 0; i < 66000; i++ {
+		k := make([]byte, 32)
+		r.Read(k)
+		v := []byte(fmt.Sprintf("h%d", i))
+		w := wl.WeightOf(v)
+		if err := src.Update(k, v, w); err != nil {
+			c.Violate("", "Update failed: %v", err)
+			return
+		}
+		m[string(k)] = wl.Entry{Val: v, W: w}
+		keys = append(keys, k)
+	}
+	src.Root()
+	data, err := src.GetPath(keys)
+	if err != nil {
+		c.Violate("", "GetPath of %d keys failed: %v", len(keys), err)
+		return
+	}
+	part := wmpt.New(nil, nil)
+	if err := part.Deserialize(data); err != nil {
+		c.Violate("", "Deserialize of an export of %d keys (%d bytes) failed: %v", len(keys), len(data), err)
+		return
+	}
+	wr, ww := m.Ref()
+	if !bytes.Equal(part.Root(), wr) || part.Weight() != ww || !bytes.Equal(src.Root(), wr) {
+		c.Violate("", "huge export: partial root %x / weight %d, source root %x, reference %x / %d", part.Root(), part.Weight(), src.Root(), wr, ww)
+		return
+	}
+	k := keys[r.Intn(len(keys))]
+	e1, e2 := src.Update(k, []byte("changed"), wl.WeightOf([]byte("changed"))), part.Update(k, []byte("changed"), wl.WeightOf([]byte("changed")))
+	if e1 != nil || e2 != nil || !bytes.Equal(src.Root(), part.Root()) {
+		c.Violate("", "huge export: mirrored update diverges (%v / %v)", e1, e2)
+		return
+	}
+	c.Count("huge_exports", 1)
+	c.Max("huge_export_bytes", int64(len(data)))
+}
+
 func init() {
 	fw.Register(&fw.Prop{
 		ID:    "C12",
 		Level: "exploration",
-		Rule: "cases enumerate root shape (empty, single entry, shared-prefix short root, branch root) x requested-key-set size in {0,1,2,5,9,10,11,12,20,40} (both sides of the >10 parallel collection path) x source (in memory with hashes finalised, or committed at a collapse level 0..5 and reopened from the hash); " +
+		Rule: "cases enumerate root shape (empty, single entry, shared-prefix short root, branch root) x requested-key-set size in {0,1,2,5,9,10,11,12,20,40} (both sides of the >10 parallel collection path) x source (in memory with hashes finalised, or committed at a collapse level 0..5 and reopened from the hash or viewed through CopyRoot(level)); case 0 is one export of all keys of a 66 000-entry trie (far more than 2^17 nodes); " +
 			"requested keys mix present and absent ones; GetPath export -> Deserialize into a storage-less trie; then 1..10 mirrored updates/deletes restricted to requested keys on both tries. Oracle: Deserialize succeeds; Root()/Weight() of the partial trie equal the source's and the independent reference after import and after each operation; " +
 			"error/no-error outcomes agree. distinct non-trivial = distinct (case description, trace)",
 		Cases: func(tier string) int {
@@ -190,7 +245,7 @@ func init() {
 			return 19200
 		},
 		Run:    runC12,
-		Floors: map[string]int64{"imports": 18000, "mirrored_ops": 50000, "imports_above_parallel_threshold": 5000, "imports_from_collapsed_source": 5000, "shape:0": 1000, "shape:1": 1000, "shape:2": 1000, "shape:3": 1000},
+		Floors: map[string]int64{"imports": 18000, "mirrored_ops": 50000, "imports_above_parallel_threshold": 5000, "imports_from_collapsed_source": 5000, "shape:0": 1000, "shape:1": 1000, "shape:2": 1000, "shape:3": 1000, "imports_from_copyroot_view": 2000, "huge_exports": 1},
 		Race:   true,
 		Assumptions: []string{
 			"in-memory sources have their hashes finalised through Root() before GetPath (the usage the package's own tests show)",
